@@ -170,7 +170,7 @@ func (a *AliveDialerSet) GetMinLatency(excluded *Dialer) (d *Dialer, latency tim
 		if entry.dialer == excluded {
 			continue
 		}
-		if entry.sortingLatency < nextBestSortingLatency {
+		if nextBest == nil || entry.sortingLatency < nextBestSortingLatency {
 			nextBestSortingLatency = entry.sortingLatency
 			nextBest = entry.dialer
 		}
@@ -317,9 +317,9 @@ func (a *AliveDialerSet) NotifyLatencyChange(dialer *Dialer, alive bool) {
 		if index := a.dialerToIndex[dialer]; index >= 0 {
 			a.aliveEntries[index].sortingLatency = sortingLatency
 		}
-		if alive &&
+		if alive && (a.minLatency.dialer == nil ||
 			sortingLatency <= a.minLatency.sortingLatency &&
-			(a.minLatency.sortingLatency < a.tolerance || sortingLatency <= a.minLatency.sortingLatency-a.tolerance) {
+				(a.minLatency.sortingLatency < a.tolerance || sortingLatency <= a.minLatency.sortingLatency-a.tolerance)) {
 			a.minLatency.sortingLatency = sortingLatency
 			a.minLatency.dialer = dialer
 		} else if a.minLatency.dialer == dialer {
@@ -398,7 +398,7 @@ func (a *AliveDialerSet) calcMinLatency() {
 	var minLatency = time.Hour
 	var minDialer *Dialer
 	for i := range a.aliveEntries {
-		if a.aliveEntries[i].sortingLatency < minLatency {
+		if minDialer == nil || a.aliveEntries[i].sortingLatency < minLatency {
 			minLatency = a.aliveEntries[i].sortingLatency
 			minDialer = a.aliveEntries[i].dialer
 		}
